@@ -201,6 +201,14 @@ m('c15-r2-wrong-method', 'C15', 'C15-R2', 'GradualDifficulty::nth:Mania', (
 m('c15-r3-size-hint', 'C15', 'C15-R3', 'osu:size_hint', (
     'src/osu/difficulty/gradual.rs', "        (len, Some(len))", "        (len, None)"))
 
+m('c15-r4-len-empty', 'C15', 'C15-R4', 'osu:len-empty', (
+    'src/osu/difficulty/gradual.rs', "        if self.osu_objects.is_empty() {\n            // No hit objects means no attributes\n            0\n        } else {\n            self.diff_objects.len() + 1 - self.idx\n        }",
+    "        self.diff_objects.len() + 1 - self.idx"))
+m('c15-r5-nth-clamp', 'C15', 'C15-R5', 'catch:nth-beyond', (
+    'src/catch/difficulty/gradual.rs', "        if n >= self.len() {\n            while self.next().is_some() {}\n\n            return None;\n        }\n\n", ""))
+m('c15-r6-len-collection', 'C15', 'C15-R6', 'mania:len-collection', (
+    'src/mania/difficulty/gradual.rs', "            self.diff_objects.len() + 1 - self.idx\n        }", "            self.note_states.len() - self.idx\n        }"))
+
 # ---- C16 ----------------------------------------------------------------------------------------------------
 m('c16-r1-rename-shadow', 'C16', 'C16-R1', 'Movement:section-length', (
     'src/catch/difficulty/skills/movement.rs', "    const SECTION_LENGTH: f64 = 750.0;", "    #[allow(unused)]\n    const SECTION_LEN: f64 = 750.0;"))
